@@ -30,9 +30,9 @@ import tempfile
 import warnings
 from collections import Counter
 
-from harness import c15_api, c15_cmp, c15_gen, core, extract_c15
+from harness import c15_api, c15_cmp, c15_fields, c15_gen, core, extract_c15
 
-PROP_MODULES = ["OV.Props.C15"]
+PROP_MODULES = ["OV.Props.C15", "OV.Props.C15Fields"]
 
 DRIVER_API = {
     "optimize": "optimize", "fold_constants": "fold_constants", "remove_unused_nodes": "remove_unused_nodes",
@@ -115,6 +115,16 @@ def driver_tables(drv: core.Driver) -> dict:
             raise core.Infra("driver rejected " + ln)
         _, e, b = ln.split()
         t["_replace"][(e, b)] = dict(kv.split("=") for kv in o_.split(";"))
+    # object tracking along call histories (`protoTrack`): every sequence of up to three driver APIs
+    hist_names = [a for a in names if a != "replace_functions"]
+    seqs = [(a,) for a in hist_names] + [(a, b) for a in hist_names for b in hist_names] \
+        + [(a, b, c) for a in hist_names for b in hist_names for c in hist_names]
+    track_outs = drv.ask(["track " + " ".join(sq) for sq in seqs])
+    t["_track"] = {}
+    for sq, o_ in zip(seqs, track_outs):
+        if o_ == "bad-op" or "?" in o_:
+            raise core.Infra(f"driver rejected track {sq}: {o_}")
+        t["_track"][sq] = dict(kv.split("=") for kv in o_.split(";"))
     t["_route"] = {}
     for ln, o_ in zip(route_lines, route_outs):
         if o_ == "bad-op":
@@ -399,7 +409,8 @@ def check_wrapper(api: str, M, o: dict, opset: int, tables: dict, stats: Counter
     if in_place:
         if pm["ret"] not in ("none", "aux"):
             problems.append(("property", None, f"{api}: in-place variant returned {pm['ret']}"))
-        if not pm["arg_mutated"] and c15_cmp.canon_equal(M0, Q):
+        if not pm["arg_mutated"] and [d for d in c15_cmp.canon_equal(M0, Q) if not pred_sparse(d)]:
+            # (a difference made only of fields the IR cannot carry — C15-SPARSE — is no evidence that the argument had to change)
             problems.append(("property", None, f"{api}{o}: in-place variant left its argument unchanged although the result differs"))
     else:
         if pm["arg_mutated"]:
@@ -546,6 +557,151 @@ def check_quiet_passes(M, src_passes: dict, stats: Counter) -> list:
     return out
 
 
+
+# --------------------------------------------------------------------------- stream 3: call histories
+
+HIST_INPLACE = ["fold_constants", "remove_unused_nodes", "remove_unused_functions", "convert_version"]
+HIST_FRESH = ["optimize", "rewrite_default", "rewrite_rules"]
+HIST_APIS = HIST_INPLACE + HIST_FRESH + ["rewrite_empty"]
+HIST_PATTERNS = [  # I = in place, F = returns a fresh proto, E = rewrite(., []) (returns its argument), C = convert_version, * = any
+    "**", "***", "EIF", "II", "FC", "IFI", "FF", "EI", "FE", "FI", "IC", "EEI", "DC", "DI",
+]  # D = convert_version down through the onnx C API with fallback=True (may fail silently: the object must be usable afterwards)
+
+
+def gen_history(rng, pattern: str, opset: int) -> list:
+    """A call history following `pattern`; options of each call are drawn for the opset the model has at that stage."""
+    calls = []
+    for ch in pattern:
+        api = {"I": lambda: rng.choice(HIST_INPLACE), "F": lambda: rng.choice(HIST_FRESH), "E": lambda: "rewrite_empty",
+               "C": lambda: "convert_version", "D": lambda: "convert_version", "*": lambda: rng.choice(HIST_APIS)}[ch]()
+        o = c15_api.gen_options(rng, api, opset)
+        if ch == "D":
+            o = {"target_version": max(18, opset - rng.choice([1, 1, 2])) if opset >= 19 else rng.choice([19, 20]), "fallback": True}
+        elif api == "convert_version":
+            if ch == "C" or rng.random() < 0.7:  # mostly a step the native converter supports, so that the history goes on
+                o = {"target_version": rng.choice([v for v in (18, 19, 20, 21, 22, 23) if v >= max(opset, 18)] or [opset])}
+            if not capi_path_taken(opset, o) and (18 <= opset <= o["target_version"] <= 23):
+                opset = o["target_version"]
+        calls.append([api, o])
+    return calls
+
+
+def check_history(M, calls: list, opset: int, tables: dict, stats: Counter) -> list:
+    """A history of wrapper calls, each applied to the object the previous call produced (proto entries), against the same
+    history of in-place IR-entry calls on one ir.Model.
+
+      H1 (property)  every call after the first is judged by the full single-call oracle on the proto it received
+                     (`check_wrapper` on the product of the previous real call: second use of a returned / mutated object);
+      H2 (contract)  proto chain result = ser(IR chain result)  — `history_proto_eq_ir` (SerRoundTrip, Extensional);
+      H3 (property + tie) which object holds what afterwards vs the Lean `protoTrack`: the caller's original object holds
+                     the result of the leading in-place / rewrite(.,[]) calls and is never reached after the first
+                     fresh-returning call; the final object IS the original iff the model says so;
+      H4 (property)  a pure call repeated on the same (unchanged) argument gives the same bytes (no state across calls).
+    """
+    from onnxscript import ir
+
+    problems = []
+    if serde_refuses(M):
+        stats["history_serde_refused"] += 1
+        return problems
+    names = tuple(DRIVER_API[a] for a, _ in calls)
+    stats["history_cases"] += 1
+    stats[f"history_len_{len(calls)}"] += 1
+    orig = copy.deepcopy(M)
+    cur = orig
+    snaps = [c15_api._bytes(orig)]
+    protos = [copy.deepcopy(M)]
+    err_p = None
+    done = 0
+    for api, o in calls:
+        try:
+            ret, rp = c15_api.call_proto(api, cur, o)
+        except Exception as e:  # noqa: BLE001
+            err_p = type(e).__name__
+            break
+        if ret == "fresh":
+            # H4: the same call again on the same argument object
+            if c15_api._bytes(cur) == snaps[-1]:
+                try:
+                    ret2, rp2 = c15_api.call_proto(api, cur, o)
+                    stats["history_repeat_same_arg"] += 1
+                    if ret2 != "fresh" or c15_api._bytes(rp2) != c15_api._bytes(rp):
+                        problems.append(("property", None, f"history {names}: {api}{o} called twice on the same unchanged proto "
+                                         f"gave different results: {c15_cmp.diff(rp, rp2)[:3] if ret2 == 'fresh' else ret2}"))
+                except Exception as e:  # noqa: BLE001
+                    problems.append(("property", None, f"history {names}: {api}{o} succeeded once and raised {type(e).__name__} "
+                                     f"when called again on the same unchanged proto"))
+        cur = rp if ret == "fresh" else cur
+        snaps.append(c15_api._bytes(cur))
+        protos.append(copy.deepcopy(cur))
+        done += 1
+    # ---- the same history on the IR entry
+    m = ir.serde.deserialize_model(copy.deepcopy(M))
+    err_i = None
+    done_i = 0
+    for api, o in calls:
+        try:
+            c15_api.call_ir(api, m, o)
+        except Exception as e:  # noqa: BLE001
+            err_i = type(e).__name__
+            break
+        done_i += 1
+    if err_p or err_i:
+        stats[f"history_err_{err_p}"] += 1
+        if (err_p, done) != (err_i, done_i):
+            problems.append(("property", None, f"history {names}: proto entries raised {err_p} at call {done + 1}, IR entries {err_i} at call {done_i + 1}"))
+    # ---- H1: each later call judged on the proto it actually received
+    stage_opset = opset
+    for k in range(done):
+        api, o = calls[k]
+        if k >= 1:
+            stats["history_second_call_checked"] += 1
+            stats[f"history_second_{api}"] += 1
+            for kind, fid, det in check_wrapper(api, protos[k], o, stage_opset, tables, stats):
+                problems.append((kind, fid, f"history {names}, call {k + 1} on the product of the previous calls: {det}"))
+        if api == "convert_version" and not capi_path_taken(stage_opset, o):
+            stage_opset = next((x.version for x in protos[k + 1].opset_import if x.domain == ""), stage_opset)
+    if done == 0:
+        return problems
+    pre = tuple(names[:done])
+    # ---- H2: chain vs chain
+    if err_p is None and err_i is None and any(a != "rewrite_empty" for a, _ in calls):
+        Q = ir.serde.serialize_model(m)
+        stats["history_chain_compared"] += 1
+        dd = c15_cmp.canon_equal(cur, Q)
+        if not dd and c15_api._bytes(cur) == c15_api._bytes(Q):
+            stats["history_chain_byte_equal"] += 1
+        for d in dd[:4]:
+            fid = "C15-TMETA" if pred_tmeta(d) else "C15-SPARSE" if pred_sparse(d) else None
+            problems.append(("tie", fid, f"history {names}: proto chain result != ser(IR chain result): {d}"))
+    # ---- H3: which object holds what
+    tr = tables["_track"][pre]
+    is_orig = cur is orig
+    if is_orig != (tr["cur"] == "orig"):
+        problems.append(("tie", None, f"history {pre}: the final object {'is' if is_orig else 'is not'} the caller's original, model says cur={tr['cur']}"))
+    k = int(tr["orig"].rstrip("~"))
+    stats[f"history_orig_holds_stage_{min(k, 2)}{'+' if k > 2 else ''}"] += 1
+    if k >= 1 and not is_orig:
+        stats["history_inplace_prefix_then_fresh"] += 1
+    if k >= 2 and pre[0] == "rewrite_empty":
+        stats["history_returned_argument_then_mutated"] += 1
+    if not is_orig and any(a in HIST_INPLACE for a, _ in calls[k + 1:done]):
+        stats["history_fresh_then_inplace"] += 1
+    if c15_api._bytes(orig) != snaps[k]:
+        later = [i for i in range(len(snaps)) if snaps[i] == c15_api._bytes(orig)]
+        problems.append(("property", None, f"history {pre}: the caller's original object must hold the result of the first {k} call(s) "
+                         f"(later calls work on other objects), but it holds {'the result after call ' + str(later[0]) if later else 'something else'}: "
+                         f"{c15_cmp.diff(onnx_from(snaps[k]), orig)[:3]}"))
+    return problems
+
+
+def onnx_from(b: bytes):
+    import onnx
+
+    mp = onnx.ModelProto()
+    mp.ParseFromString(b)
+    return mp
+
 # --------------------------------------------------------------------------- cases
 
 
@@ -566,6 +722,8 @@ def run_case(case: dict, tables: dict, stats: Counter) -> list:
         return check_routing(M, tables, stats)
     if api == "quiet_passes":
         return check_quiet_passes(M, tables["_src_passes"], stats)
+    if api == "history":
+        return check_history(M, case["calls"], info["features"]["opset"], tables, stats)
     return check_wrapper(api, M, case.get("options", {}), info["features"]["opset"], tables, stats)
 
 
@@ -577,7 +735,7 @@ SHRINK_OFF = {
     "producer": False, "domain": False, "model_version": False, "model_doc": False, "model_meta": False,
     "explicit_defaults": False, "symbolic_batch": False, "function_doc": False, "function_meta": False,
     "function_value_info": False, "w2_raw": False, "const_tensor_node": "none", "expand_fold": "none",
-    "big_initializer": "none", "repl_call": False, "no_fold": False, "sparse_attr": False, "subgraph_if": False, "second_custom_domain": False, "expand_from_constant_nodes": False, "tensor_meta": False, "other_fields": False, "function_dead_node": False,
+    "big_initializer": "none", "repl_call": False, "no_fold": False, "sparse_attr": False, "subgraph_if": False, "second_custom_domain": False, "expand_from_constant_nodes": False, "tensor_meta": False, "other_fields": False, "function_dead_node": False, "trimmable": False, "nothing_dead": False, "introduced_op": False,
 }
 
 
@@ -763,6 +921,16 @@ def main(run: core.Run) -> None:
         "sha": src["sha"], "programs": {f"{a}/{e}": st for (a, e), st in sorted(src["progs"].items())},
         "routes": len(src["routes"]), "unknown_statements": sum(st.count("unknown") for st in src["progs"].values()),
     }
+    # second table: every field of Model/Graph/Node/FunctionProto in the installed descriptors, its carrier, and what the
+    # installed onnx_ir's serde does to a populated sample (theorems of OV.Props.C15Fields, decide over the table)
+    ft = c15_fields.regenerate()
+    run.coverage["field_table"] = {
+        "sha": ft["sha"], "rows": len(ft["rows"]),
+        "not_carried": [f"{r['msg']}.{r['field']}:{r['status']}" for r in ft["rows"] if r["status"] != "carried"],
+        "per_message": dict(Counter(r["msg"] for r in ft["rows"])),
+    }
+    if any(r["status"].startswith(("refused", "unprobed")) for r in ft["rows"]):
+        run.coverage["field_table"]["needs_attention"] = [r for r in ft["rows"] if r["status"].startswith(("refused", "unprobed"))]
     audit = run.prove(PROP_MODULES)
     if not audit["ok"] and gen_file.read_text() != extract_c15.lean_text(extract_c15.extract()):
         # another run (different VERIF_REPO) regenerated the shared table between our write and our build: redo once
@@ -875,6 +1043,15 @@ def _main(run: core.Run, audit: dict, tables: dict, stats: Counter) -> None:
                 stats["branch_fold_reports_unmodified"] += 1  # nothing folded, the IR is only annotated
                 if o.get("onnx_shape_inference"):
                     stats["branch_fold_unmodified_with_shape_inference"] += 1
+            if api == "remove_unused_nodes" and ft.get("trimmable") and ft.get("nothing_dead") and not ft.get("sparse_attr"):
+                rep_mod, rep_changed = c15_api.remove_unused_nodes_report(M)
+                if rep_changed and not rep_mod:
+                    stats["branch_rmnodes_reports_unmodified_but_trims"] += 1  # optional outputs / trailing '' inputs trimmed, nothing removed
+            if (api == "convert_version" and capi_path_taken(ft["opset"], o) and not ft.get("sparse_attr") and c15_api.LAST.get("proto_error") is None
+                    and c15_api.LAST.get("proto_opset_after") == ft["opset"] != o.get("target_version")):
+                stats["branch_capi_failed_silently"] += 1  # the C-API converter raised, the wrapper swallowed it: model must be as it was
+                if ft.get("big_initializer") != "none":
+                    stats["branch_capi_failed_silently_with_big_initializer"] += 1
             if api == "convert_version" and o.get("target_version") == ft["opset"]:
                 stats["branch_convert_same_version"] += 1
             if len(run.samples) < 6 and k % 7 == 0 and api in ("optimize", "convert_version", "rewrite_rules"):
@@ -882,6 +1059,15 @@ def _main(run: core.Run, audit: dict, tables: dict, stats: Counter) -> None:
         do({"api": "inline", "gen_seed": seed})
         if k % 2 == 0:
             do({"api": "quiet_passes", "gen_seed": seed})
+
+    # stream 3: call histories (second call on the returned / mutated object, object identity, chains)
+    for k in range(run.size(70, 700)):
+        seed = run.rng.getrandbits(48)
+        M, info = build_case({"gen_seed": seed})
+        hrng = random.Random(seed ^ 0xC4A1)
+        pattern = HIST_PATTERNS[k % len(HIST_PATTERNS)]
+        calls = gen_history(hrng, pattern, info["features"]["opset"])
+        do({"api": "history", "gen_seed": seed, "calls": calls})
 
     replay_known(run, stats)
     replay_refutation_witnesses(stats)
@@ -948,11 +1134,16 @@ def _main(run: core.Run, audit: dict, tables: dict, stats: Counter) -> None:
         "branch_default_limits_straddled", "branch_explicit_limits_on_growing_fold", "branch_inline_false_with_functions",
         "branch_capi_with_big_overridable_initializer", "branch_convert_same_version", "convert_capi_path",
         "branch_fold_reports_unmodified", "branch_fold_unmodified_with_shape_inference", "quiet_pass_checked",
+        "branch_rmnodes_reports_unmodified_but_trims", "feat_trimmable", "feat_introduced_op", "branch_capi_failed_silently",
+        "branch_capi_failed_silently_with_big_initializer",
         "renamer_wrote_through_LiftConstantsToInitializersPass",
         "replace_guard_functions_0", "replace_guard_functions_1", "inline_functions_0", "inline_functions_1",
         "routes_checked", "serde_refused_models", "feat_subgraph_if", "feat_const_tensor_node=anon", "feat_explicit_defaults",
         "feat_function_value_info", "feat_other_fields", "feat_tensor_meta", "err_convert_version_VersionConverterError",
         "err_replace_functions_keep_ValueError",
+        "history_cases", "history_len_3", "history_second_call_checked", "history_chain_compared", "history_chain_byte_equal",
+        "history_repeat_same_arg", "history_inplace_prefix_then_fresh", "history_returned_argument_then_mutated",
+        "history_fresh_then_inplace", "history_second_convert_version", "history_orig_holds_stage_0",
     ] + (["arg_written_through"] if stats["witness_ALIAS"] else [])  # (only while C15-ALIAS reproduces)
     missing = [k for k in required if stats[k] == 0]
     run.coverage["required_counters"] = {k: stats[k] for k in required}
